@@ -34,21 +34,7 @@ Proof.
   intros Hq Hu. assert (0 < (1 - u) * q) by (apply Qmult_lt_0_compat; lra). lra.
 Qed.
 
-(** ** tables without the activity flag; the active unit is chosen by index *)
-Definition utable := list (Q * Z).
-
-Definition inactive (t : utable) : list entry := map (fun e => (fst e, snd e, false)) t.
-
-Fixpoint activate (a : nat) (t : utable) : list entry :=
-  match t with
-  | [] => []
-  | e :: t' =>
-      match a with
-      | O => (fst e, snd e, true) :: inactive t'
-      | S a' => (fst e, snd e, false) :: activate a' t'
-      end
-  end.
-
+(** ** tables without the activity flag ([utable], [activate]: see Model/Lifting.v) *)
 Definition rates (t : utable) : list Q := map fst t.
 Definition rate_at (a : nat) (t : utable) : Q := nth a (rates t) 0.
 (** positive part of a rate: the outflow of the unit when it is active *)
